@@ -6,6 +6,8 @@ package PKG
 
 import "net/url"
 
+//@ use strings
+
 //@ extern func url.Parse(rawURL string) (u *url.URL, err error)
 //@   pure
 //@   ensures nonnil: err == nil ==> u != nil
@@ -49,6 +51,15 @@ var _ = url.Parse
 //@   requires plain: vForallIn(0, len(a), func(j int) bool { return a[j] != '%' })
 //@   ensures id: verifUnescOK(a) && verifUnescVal(a) == a
 //@   trigger verifUnescVal(a)
+//@   trigger verifUnescOK(a)
+
+// The same fact with "contains no '%'" stated through IndexByte (not derived from pathUnescapePlain
+// here: the step needs positions below len(a) to be Go ints, which the integer model does not give).
+//@ lemma pathUnescapeNoPct(a string)
+//@   trusted net/url unescape returns its argument when it contains no '%' (same fact as pathUnescapePlain)
+//@   requires none: indexB(a, '%') < 0
+//@   ensures id: verifUnescOK(a) && verifUnescVal(a) == a
+//@   trigger verifUnescVal(a), indexB(a, '%')
 
 func verifUnescVal(s string) string {
 	r, _ := url.PathUnescape(s)
